@@ -469,6 +469,38 @@ class Fn:
                 uses[t].append((l, "ref", None))
         self._uses = uses
 
+    def reaching_defs(self, loc, l):
+        """def entries (loc, kind, payload) of local l that reach location loc (backward walk)"""
+        self._build_defs()
+        by_loc = defaultdict(list)
+        for d in self._defs.get(l, ()):
+            by_loc[d[0]].append(d)
+        if not by_loc:
+            return []
+        out = []
+        seen = set()
+        work = [(loc[0], loc[1] - 1)]
+        entry_reached = False
+        while work:
+            b, i = work.pop()
+            found = False
+            j = i
+            while j >= 0:
+                if (b, j) in by_loc:
+                    out.extend(by_loc[(b, j)])
+                    found = True
+                    break
+                j -= 1
+            if found:
+                continue
+            if b == 0:
+                entry_reached = True
+            for p in self.pred(b):
+                if p not in seen:
+                    seen.add(p)
+                    work.append((p, len(self.stmts(p))))
+        return out
+
     def reads(self, l):
         """locations where local l is read (operands, call args, switch/assert/yield operands,
         base of a projected destination); Drop and StorageDead do not count"""
